@@ -64,7 +64,9 @@ def gen_scenario(rng, frontend):
             dig = ('of', rng.choice(cands)) if cands else 'bogus'
         elif k < 0.16:
             dig = 'bogus'
-        ints.append({'id': i, 'name': nm, 'cbp': rng.random() < 0.4, 'L': L, 'te': te, 'lat': lat,
+        # the front-ends send at once and hand back a coroutine: some callers begin to await it later (still inside the lifetime)
+        aw = rng.choice([1, 5, L // 2, L - 1]) if rng.random() < 0.15 else 0
+        ints.append({'id': i, 'name': nm, 'cbp': rng.random() < 0.4, 'L': L, 'te': te, 'lat': lat, 'aw': aw,
                      'verdict': rng.choice(V2_VERDICTS if frontend == 'v2' else V1_VERDICTS), 'digest': dig,
                      'placeholder': dig is None and rng.random() < 0.06})
     # candidate times: every deadline -1/0/+1, every express time, claim+latency points
@@ -92,6 +94,8 @@ def gen_scenario(rng, frontend):
     # nothing after a shutdown; a Nack only for an Interest already expressed
     out = []
     for e in events:
+        if e['kind'] == 'cancel' and e['t'] <= ints[e['i']]['te'] + ints[e['i']]['aw'] and ints[e['i']]['aw']:
+            continue        # giving up an Interest whose coroutine was never awaited is outside the statement
         out.append(e)
         if e['kind'] == 'shutdown':
             break
@@ -153,6 +157,9 @@ def model_outcomes(sc, it):
     if not seen_express:
         return {('never-expressed', None, None)}
     results = set()
+    aw_at = te + it.get('aw', 0)
+    # legacy front-end: the validator runs in the caller's coroutine, i.e. not before the caller awaits
+    val_start = (lambda t: max(t, aw_at)) if sc['frontend'] == 'v1' else (lambda t: t)
     good = (it['verdict'] in ('PASS', 'ALLOW_BYPASS')) if sc['frontend'] == 'v2' else bool(it['verdict'])
     for perm in itertools.permutations(['ev', 'dl', 'val']):
         rank = {c: r for r, c in enumerate(perm)}
@@ -224,12 +231,12 @@ def model_outcomes(sc, it):
                 if k == 'data' and state == 'pending' and matches(sc, it, e['d'], None):
                     state = 'claimed'
                     claimed_d = e['d']
-                    pending_val = t + it['lat']
+                    pending_val = val_start(t) + it['lat']
                     continue
                 if k == 'dataf' and state == 'pending' and dataf_matches(sc, it, e['i']):
                     state = 'claimed'
                     claimed_d = 200 + e['i']
-                    pending_val = t + it['lat']
+                    pending_val = val_start(t) + it['lat']
                     continue
 
         # enumerate binary choices depth-first
@@ -242,6 +249,9 @@ def model_outcomes(sc, it):
                 todo.append(ch + (1,))
             else:
                 results.add(res)
+    if it.get('aw'):
+        # the caller sees the outcome when it awaits, not before
+        results = {(k, d, (None if t is None else max(t, aw_at))) for (k, d, t) in results}
     return results
 
 
@@ -333,7 +343,9 @@ def execute(sc):
                     return it['verdict']
             return v
 
-        async def waiter(iid, coro):
+        async def waiter(iid, coro, await_from=None):
+            if await_from is not None:
+                await S.sleep_until_ms(await_from)
             try:
                 res = await coro
                 content = bytes(res[1] if fe == 'v2' else res[2])
@@ -392,7 +404,7 @@ def execute(sc):
                 except Exception as ex:   # noqa
                     R.express_errors[it['id']] = ex
                     continue
-                tasks[it['id']] = asyncio.ensure_future(waiter(it['id'], coro))
+                tasks[it['id']] = asyncio.ensure_future(waiter(it['id'], coro, it['te'] + it['aw'] if it.get('aw') else None))
             elif k == 'data':
                 try:
                     dw = R.data_wires[e['d']]
@@ -548,6 +560,9 @@ def judge(ctx, sc, R, S):
     ctx.case(sig, nontrivial=overlap > 0, sample=sc if ctx.evaluations % 400 == 3 else None)
     for gk, _ in order:
         ctx.event('outcome-' + gk)
+    for it in sc['ints']:
+        if it.get('aw'):
+            ctx.event('awaited-later-than-expressed')
     ctx.event('validator-calls', sum(1 for x in R.validator_log if x[1] == 'call'))
 
 
@@ -642,7 +657,7 @@ def run(ctx):
     for lab in ('cancel-then-nack', 'cancel-then-data', 'reexpress-while-validating', 'tie-data-at-deadline', 'one-data-many-interests',
                 'shutdown-mixed', 'nack-for-prefix-of-pending', 'verdicts-differ', 'implicit-digest'):
         ctx.need_class('template:' + lab)
-    for k in ('outcome-data', 'outcome-timeout', 'outcome-nack', 'outcome-cancel', 'outcome-valfail', 'validator-calls'):
+    for k in ('outcome-data', 'outcome-timeout', 'outcome-nack', 'outcome-cancel', 'outcome-valfail', 'validator-calls', 'awaited-later-than-expressed'):
         ctx.need_event(k)
     ctx.assumptions = ['exact ties (packet / validator completion / deadline in the same millisecond) accept either order',
                        'Data arrived in time but validator slower than the deadline: Data/ValidationFailure at validator completion or timeout at the deadline are both accepted here (C05 decides that clause)',
